@@ -288,7 +288,7 @@ def r05_1(prog, out):
                               "ModifyAckDeadline with N > 600 moves the deadline N seconds away" % prog.short(used[0]))
 
 
-def duration_const_secs(prog, k):
+def duration_const_secs(prog, k, whole_seconds_only=True):
     """{seconds} of `const X: Duration = Duration::from_secs(<int literal or product of literals>)`; empty when it is anything else"""
     import os, re
     m = re.match(r"^(.*?):(\d+):\d+-(\d+):\d+$", k.get("span", ""))
@@ -299,13 +299,17 @@ def duration_const_secs(prog, k):
     except OSError:
         return set()
     text = " ".join(lines)
-    mm = re.search(r"=\s*(?:std::time::|core::time::)?Duration::from_secs\(\s*([0-9_]+(?:\s*\*\s*[0-9_]+)*)\s*\)\s*;", text)
+    mm = re.search(r"=\s*(?:std::time::|core::time::)?Duration::from_(secs|millis|micros)\(\s*([0-9_]+(?:\s*\*\s*[0-9_]+)*)\s*\)\s*;", text)
     if not mm:
         return set()
     v = 1
-    for f in mm.group(1).split("*"):
+    for f in mm.group(2).split("*"):
         v *= int(f.strip().replace("_", ""))
-    return {v}
+    if mm.group(1) == "secs":
+        return {v}
+    if not whole_seconds_only:
+        return {v / (1000.0 if mm.group(1) == "millis" else 1000000.0)}
+    return set()
 
 
 def secs_point_equiv(a, b, v):
@@ -461,9 +465,23 @@ def r05_3(prog, out):
 
 
 @rule("C05", "R05.5", "every ack id handed to the batch parser has its own seconds value (zip cannot truncate)", floor=2)
-@rule("C03", "R05.5", "every ack id handed to the batch parser has its own seconds value (zip cannot truncate)", floor=2)
+def r05_5_c05(prog, out):
+    r05_5(prog, out, "C05")
+
+
 @rule("C17", "R05.5", "every ack id handed to the batch parser has its own seconds value (zip cannot truncate)", floor=2)
-def r05_5(prog, out):
+def r05_5_c17(prog, out):
+    r05_5(prog, out, "C17")
+
+
+@rule("C03", "R05.5", "every ack id handed to the batch parser has its own seconds value (zip cannot truncate)", floor=2)
+def r05_5_c03(prog, out):
+    # for the exclusive lease only the forms that make the server release or re-pair leases matter (a made-up 0 = nack, ids paired
+    # with another id's seconds); a silently ignored tail of ack ids leaves every lease as it was
+    r05_5(prog, out, "C03")
+
+
+def r05_5(prog, out, prop="C05"):
     A = prog.anchors
     sl = Slicer(prog)
     parser = [b.id for b in prog.facts.lib_bodies() if b.kind == "Fn" and b.local_ty(0).startswith(
@@ -621,6 +639,9 @@ def r05_5(prog, out):
                 out.holds(key, bi.loc(bb), "a length comparison of the two lists rejects a mismatch before parsing")
             elif cycles and fixed:
                 out.holds(key, bi.loc(bb), "a literal list of %d value(s) is repeated over the ack ids by the parser" % fixed)
+            elif (cycles or (zips and not invents)) and prop == "C03":
+                out.undecided(key, bi.loc(bb), "lists of different length are not rejected here; a truncated / repeated pairing changes which deadlines are set, not who "
+                              "holds a lease (judged under C05 / C17)")
             elif cycles:
                 out.violation(key, bi.loc(bb), "the batch parser repeats a shorter seconds list over the ack ids (cycle) and nothing rejects lists of different length "
                               "before it is called: an inconsistent request is accepted and applied (and an empty seconds list silently drops every ack id)")
